@@ -9,10 +9,8 @@ RECURSIVE Join(_)
 Join(s) == IF s = <<>> THEN "" ELSE s[1] \o Join(Tail(s))
 GenBounded == Len(input) <= GenLen
 Emit ==
-    (Len(input) = GenLen \/ (Len(input) < GenLen /\ Len(input) > 0 /\ input[Len(input)] = "\n")) =>
+    (Len(input) >= 1 /\ ~RefResult.err) =>
         PrintT("GENJ " \o ToJson([body |-> Join(input),
-                                  expect |-> IF RefResult.err THEN "ERROR" ELSE "OK",
                                   clauses |-> [i \in DOMAIN RefResult.cls |->
                                                  [j \in DOMAIN RefResult.cls[i] |-> Join(RefResult.cls[i][j])]]]))
-Dbg == TLCGet("level") < 12
 ==============================================================================
